@@ -63,14 +63,15 @@ def replay_case(case):
         narrow = big.copy()
         for c in numcols:
             narrow[c] = big[c].astype("int8" if rawtop <= 127 else "int64")
-        o1 = matlib.observe_build(formula, big, output="numpy", full_rank=case["full_rank"], na=case["na"], cluster=case["cluster"])
-        o2 = matlib.observe_build(formula, narrow, output="numpy", full_rank=case["full_rank"], na=case["na"], cluster=case["cluster"])
+        iout = ["numpy", "sparse", "pandas"][(h0 // 2) % 3]        # (each output type assembles its columns in its own way)
+        o1 = matlib.observe_build(formula, big, output=iout, full_rank=case["full_rank"], na=case["na"], cluster=case["cluster"])
+        o2 = matlib.observe_build(formula, narrow, output=iout, full_rank=case["full_rank"], na=case["na"], cluster=case["cluster"])
         if o1["st"] == "OK":
-            base = {"formula": formula, "fid": case["fid"], "output": "numpy", "full_rank": case["full_rank"], "na": case["na"], "cluster": case["cluster"], "path": "integer dtype"}
+            base = {"formula": formula, "fid": case["fid"], "output": iout, "full_rank": case["full_rank"], "na": case["na"], "cluster": case["cluster"], "path": "integer dtype"}
             if o2["st"] != "OK":
                 bad.append({**base, "why": "exception with integer columns", "observed": o2.get("cls"), "msg": o2.get("msg")})
             else:
-                a1, a2 = numpy.asarray(o1["mm"], dtype=float), numpy.asarray(o2["mm"], dtype=float)
+                a1, a2 = (numpy.asarray(o["mm"].toarray() if hasattr(o["mm"], "toarray") else o["mm"], dtype=float) for o in (o1, o2))
                 if a1.shape != a2.shape or not numpy.array_equal(a1, a2):
                     bad.append({**base, "why": "cells depend on the integer dtype holding the same numbers", "observed": a2.tolist(), "expected": a1.tolist()})
     return bad
